@@ -254,6 +254,27 @@ func TestC18(t *testing.T) {
 	if !vfsCalibrate(r) {
 		r.End()
 	}
+	if prov, mode, names, variant, ok := vfReplayCase(r); ok {
+		if seq, known := vfSymbols(names, vfsNames[:]); prov == "file_system" && known {
+			st := &vfStats{}
+			if sched, isDirect := strings.CutPrefix(mode, "direct/"); isDirect {
+				m, _ := vfSymbols([]string{sched}, vfsModes)
+				init := 0
+				if strings.Contains(variant, "init=1") {
+					init = 1
+				}
+				dir := vfRunDir("c18fs-replay")
+				if len(m) == 1 {
+					vfsRunDirect(r, &vfsWorld{dir: dir, files: map[string]*vfsFile{}}, seq, m[0], init, st)
+				}
+			} else {
+				vfsRunWatch(r, vfRunDir("c18fs-replay-watch"), 0, seq, st)
+			}
+			r.Eval(1)
+			vfFlushStats(r, st)
+		}
+		r.End()
+	}
 	if pf := os.Getenv("VERIF_CPUPROFILE"); pf != "" { // development aid
 		if f, err := os.Create(pf); err == nil {
 			_ = pprof.StartCPUProfile(f)
